@@ -60,8 +60,9 @@ func plans(tier string) []tierPlan {
 	if tier == engine.Thorough {
 		return []tierPlan{
 			{"all templates at every level, D<=3", genOpts{}, []int{1, 2, 3}},
-			{"all four levels from the core subset, D=4", genOpts{coreFrom: 1}, []int{4}},
-			{"spines (one filled hole per form) over the spine subset, D=5", genOpts{spineFrom: 1, spine: true}, []int{5}},
+			{"root from all templates, lower levels from the spine subset, D=4", genOpts{spineFrom: 2}, []int{4}},
+			{"every level from the deep subset, D=5", genOpts{deepFrom: 1}, []int{5}},
+			{"spines (one filled hole per form, i.e. nesting depth 6) over the deep subset, D=6", genOpts{deepFrom: 1, spine: true}, []int{6}},
 		}
 	}
 	return []tierPlan{
@@ -85,17 +86,15 @@ func bound(tier string) string {
 	for _, pl := range plans(tier) {
 		parts = append(parts, pl.what)
 	}
-	nCore, nSpine := 0, 0
+	var n [4]int
 	for _, t := range templates {
-		if 1 <= t.rank {
-			nCore++
-		}
-		if 2 <= t.rank {
-			nSpine++
+		for r := 1; r <= t.rank; r++ {
+			n[r]++
 		}
 	}
-	return fmt.Sprintf("%d templates (%d in the core subset, %d in the spine subset), nesting depth <= 6, deviations D counted including the root form: %s; "+
-		"quote: %d data x %d contexts x 2 notations", len(templates), nCore, nSpine, strings.Join(parts, "; "), len(datums), len(quoteCtxs))
+	return fmt.Sprintf("%d templates (subsets: core %d, spine %d, deep %d), nesting depth <= 6, deviations D counted including the root form "+
+		"(a deviation = a hole filled with a template or an environment leaf): %s; quote: %d data x %d contexts x 2 notations",
+		len(templates), n[1], n[2], n[3], strings.Join(parts, "; "), len(datums), len(quoteCtxs))
 }
 
 // ---------------------------------------------------------------- running
